@@ -172,3 +172,18 @@ def write_evidence(prop, tier, seed, level, coverage, wall, violations=0, assump
 
 def jsonable(cfg):
     return json.loads(json.dumps(cfg, default=lambda o: o.tolist() if hasattr(o, 'tolist') else str(o)))
+
+
+def cleanup_case_files():
+    """remove the Coq case files (and their compilation products) written by this process"""
+    import glob
+    d = os.path.join(ROOT, 'coq', 'gprops')
+    for f in glob.glob(os.path.join(d, '*_cases_%d.*' % os.getpid())) + glob.glob(os.path.join(d, '.*_cases_%d.aux' % os.getpid())):
+        try:
+            os.remove(f)
+        except OSError:
+            pass
+
+
+import atexit
+atexit.register(cleanup_case_files)
